@@ -248,10 +248,41 @@ pub fn video_frame(r: &mut Rng, codec: u8, kind: FrameKind, body_len: usize, dec
 
 pub const AAC_RATES: [u32; 13] = [96000, 88200, 64000, 48000, 44100, 32000, 24000, 22050, 16000, 12000, 11025, 8000, 7350];
 
+thread_local! {
+    /// Per-history ADTS stream style: (profile, sampling index, channel cfg, protection policy
+    /// 0 = always CRC, 1 = never CRC, 2 = mixed). None = every frame draws its own header fields.
+    static ADTS_STYLE: std::cell::Cell<Option<(u8, u8, u8, u8)>> = const { std::cell::Cell::new(None) };
+}
+
+/// Real streams keep their fixed header fields constant; set this per history.
+pub fn set_adts_style(s: Option<(u8, u8, u8, u8)>) {
+    ADTS_STYLE.with(|c| c.set(s));
+}
+
+pub fn random_adts_style(r: &mut Rng) -> Option<(u8, u8, u8, u8)> {
+    if r.chance(1, 4) {
+        return None;
+    }
+    let policy = match r.below(20) {
+        0..=2 => 0,
+        3..=12 => 1,
+        _ => 2,
+    };
+    Some((r.below(4) as u8, r.below(13) as u8, r.range(1, 7) as u8, policy))
+}
+
 /// Valid ADTS frame with known payload.
 pub fn adts_frame(r: &mut Rng, payload_len: usize, trailing: usize) -> (Vec<u8>, Vec<u8>) {
     let payload = r.bytes(payload_len.max(1));
-    let mut f = build_adts(r.below(4) as u8, r.below(13) as u8, r.range(1, 7) as u8, r.chance(3, 4), &payload, None, 0, 0);
+    let (profile, sfi, ch, pa) = match ADTS_STYLE.with(|c| c.get()) {
+        Some((p, s, c, policy)) => (p, s, c, match policy {
+            0 => false,
+            1 => true,
+            _ => r.chance(1, 2),
+        }),
+        None => (r.below(4) as u8, r.below(13) as u8, r.range(1, 7) as u8, r.chance(3, 4)),
+    };
+    let mut f = build_adts(profile, sfi, ch, pa, &payload, None, 0, 0);
     if trailing > 0 {
         f.extend_from_slice(&r.bytes(trailing));
     }
